@@ -467,6 +467,10 @@ def c08_cases():
                       lambda ex, st0, st, P, r: [('stored', elem(ex, st, P['s'], P['i']) == P['v']),
                                                  ('frame', z3.ForAll([K_], z3.Implies(K_ != P['s'].fields['$offset'] + P['i'],
                                                    z3.Select(z3.Select(ex.heap(st), P['s'].fields['$array'].ident), K_) == z3.Select(z3.Select(ex.heap(st0), P['s'].fields['$array'].ident), K_))))]))
+    # assignment to an entry of a nil map panics (the emitted `(m || $throwRuntimeError(...)).set(...)`)
+    C.append(SpecCase('MapSet', 'func MapSet(m map[int]int, k int, v int) { m[k] = v }', [('m', 'gomap'), ('k', 'int32'), ('v', 'int32')],
+                      lambda ex, st, P: P['m'].fields['$nil'], 'assignment to entry in nil map',
+                      lambda ex, st0, st, P, r: []))
     C.append(SpecCase('IdxStr', 'func IdxStr(s string, i int) byte { return s[i] }', [('s', 'str'), ('i', 'int32')],
                       lambda ex, st, P: oob(P['i'], P['s'].len), 'index out of range',
                       lambda ex, st0, st, P, r: [('value', r == z3.Select(P['s'].arr, P['s'].off + P['i']))]))
